@@ -227,6 +227,12 @@ def run_case(case, ctx):
 
     if cls == "redfield":
         with ctx.lib("RedfieldRateMatrix / Redfield tensor"):
+            if len(desc["E"]) % 2 == 0 or int(desc["Nt"]) % 2 == 0:
+                # a program that looks at the time-dependent rates first and at the stationary quantities afterwards, all from
+                # the same Hamiltonian and system-bath interaction objects
+                from quantarhei.qm import TDRedfieldRateMatrix as _TDR
+                _TDR(ham, agg.get_SystemBathInteraction())
+                ctx.event("redfield_cases_with_td_rates_computed_first")
             RR = numpy.array(agg.get_RedfieldRateMatrix().data, dtype=float)
             from quantarhei.qm import RedfieldRateMatrix
             RR2 = numpy.array(RedfieldRateMatrix(ham, agg.get_SystemBathInteraction()).data, dtype=float)
